@@ -175,7 +175,7 @@ def run(R, tier):
                 if c.rname not in allowed and c.name not in allowed and not inside and not c.name.endswith(("Parameters::with", "Node::exec", "Node::run_tokens", "Command::event", "Command::query")):
                     bad.append("%s in %s" % (c.name, b.npath))
     R.check(not bad, "R05.7", "stream-ops", "the shared token stream is only peeked / advanced (%d call sites)" % n, "token stream used by %s: it may only be peeked or advanced, never cloned, rewound or replaced" % bad)
-    R.floor("R05.7", "token stream call sites", n, 10)
+    R.floor("R05.7", "token stream call sites", n, 6)
 
 
 def _site(b, c):
